@@ -349,7 +349,11 @@ def check_convert_value(val: str, char: Characteristic) -> Any:
     if char.format in NUMBER_TYPES:
         try:
             val = Decimal(val)
-        except ValueError:
+        except (ValueError, TypeError, ArithmeticError):
+            # decimal.InvalidOperation is an ArithmeticError, not a ValueError
+            raise FormatError(f'"{val}" is no valid "{char.format}"!')
+
+        if not val.is_finite():
             raise FormatError(f'"{val}" is no valid "{char.format}"!')
 
         if char.minValue is not None:
